@@ -391,6 +391,9 @@ func (d *driver) send(in input) {
 	d.run.Count("requests:"+in.Kind, 1)
 	if in.Phase == "hostile" {
 		d.run.Eval(1)
+		if in.Seq%97 == 0 {
+			d.run.Sample(map[string]any{"input": in, "http_status": status, "result": result})
+		}
 		d.run.Distinct(in.Kind + "|" + stringClass(in.S))
 		if strings.Contains(in.S, "\\") && status != 0 {
 			d.run.Count(fmt.Sprintf("backslash_name_status:%s:%d", in.Kind, status), 1)
